@@ -311,6 +311,9 @@ impl TimeZone {
         // A reading skipped by the transition at `t` lies in `t + before..t + after` and
         // offsets are shorter than a day, so `t` is within a day of the reading taken as
         // UTC. Walk the transitions of that window, newest first.
+        // Transitions close to one another can skip the same reading more than once: the gap
+        // of the oldest of them is the one that first skipped it.
+        let mut found = None;
         let mut cursor = local + NS_PER_DAY;
         while cursor > local - NS_PER_DAY {
             let after = provider.get_named_tz_offset_nanoseconds(identifier, cursor)?;
@@ -325,15 +328,15 @@ impl TimeZone {
             let offset_before = i128::from(before.offset) * 1_000_000_000;
             let offset_after = i128::from(after.offset) * 1_000_000_000;
             if (transition + offset_before..transition + offset_after).contains(&local) {
-                return Ok(Some(Gap {
+                found = Some(Gap {
                     transition,
                     offset_before,
                     offset_after,
-                }));
+                });
             }
             cursor = transition - 1;
         }
-        Ok(None)
+        Ok(found)
     }
 
     pub(crate) fn get_start_of_day(
